@@ -301,9 +301,14 @@ pub fn run(r: &Run) {
     r.prop("event-sequences", r.tier.pick(200_000, 4_000_000), || arb_case(r.tier.pick(24, 60)), check);
     r.assume(GLUE_RULE);
     r.prop("daemon-glue", r.tier.pick(40_000, 1_000_000), || arb_case(r.tier.pick(24, 60)), check_glue);
+    r.assume(super::c11e::RULE);
+    r.slow(|| r.prop("restart-sessions", r.tier.pick(3_000, 100_000), || super::c11e::arb_case(10), super::c11e::check));
 }
 
 pub fn replay(sub: &str, case: &Value) -> Result<CheckResult, String> {
+    if sub == "restart-sessions" {
+        return super::c11e::replay(case);
+    }
     let c: Case = decode_case(case)?;
     if sub == "daemon-glue" {
         return Ok(check_glue(&c));
